@@ -159,7 +159,7 @@ func TestC11(t *testing.T) {
 	defer r.Finish()
 	r.Extra("rule", fmt.Sprintf("token sequences over an alphabet of %d fragments (keywords, operators, well- and ill-formed literals, indentation, control bytes, non-ASCII): exhaustive for length <=2 "+
 		"(thorough: a strided third of length 3) joined with and without spaces, rapid-drawn sequences of length 3-14; byte/token mutations (delete, duplicate, swap, truncate, insert hostile fragment) "+
-		"of the repository's .py files; structured programs from the scope-structure generator (nested functions/classes/lambdas/comprehensions with coinciding names, global/nonlocal, legal and illegal) and the statement generator, intact or with one hostile fragment inserted; size class (deep nesting, >64KiB functions); each in exec, eval and single mode. Oracle: Compile returns a code object, or an exception of the SyntaxError "+
+		"of the repository's .py files; every placement of break/continue/return/yield/global/nonlocal/star-import inside nestings of block kinds up to depth 2 (thorough 3); structured programs from the scope-structure generator (nested functions/classes/lambdas/comprehensions with coinciding names, global/nonlocal, legal and illegal) and the statement generator, intact or with one hostile fragment inserted; size class (deep nesting, >64KiB functions); each in exec, eval and single mode. Oracle: Compile returns a code object, or an exception of the SyntaxError "+
 		"family carrying filename, lineno and offset, within a watchdog (5 s, retried once with 60 s). Non-trivial: rejected, or accepted with >=3 tokens; distinct by (mode, text).", len(c11Alphabet)))
 	r.Extra("assumptions", []string{"a hang is believed only after retries with 60 s and 300 s limits"})
 	r.ReplayKnown()
@@ -180,6 +180,7 @@ func TestC11(t *testing.T) {
 			c11Check(r, "for q in z:\n"+Indent(tpl, 4), "template-in-loop")
 		}
 		c11Sizes(r)
+		c11Placements(r, r.Pick(2, 3))
 	}
 	if r.Thorough() {
 		n := len(c11Alphabet)
@@ -280,6 +281,42 @@ func TestC11(t *testing.T) {
 			rt.Fatalf("C11 violation")
 		}
 	})
+}
+
+// c11Placements: statements whose legality depends on where they stand (break, continue, return, yield, global, nonlocal, ...)
+// inside every nesting of block kinds up to the given depth, with and without an enclosing loop or function
+func c11Placements(r *Run, depth int) {
+	wrappers := []string{
+		"try:\n%s\nfinally:\n    pass\n",
+		"try:\n    pass\nexcept E:\n%s\n",
+		"try:\n    pass\nfinally:\n%s\n",
+		"try:\n    pass\nexcept E:\n    pass\nelse:\n%s\n",
+		"with a, b:\n%s\n",
+		"if a:\n%s\nelse:\n    pass\n",
+		"if a:\n    pass\nelse:\n%s\n",
+		"for i in a:\n    pass\nelse:\n%s\n",
+		"while a:\n    pass\nelse:\n%s\n",
+		"class C:\n%s\n",
+		"def f():\n%s\n",
+		"for i in a:\n%s\n",
+	}
+	stmts := []string{"break", "continue", "return 1", "yield 1", "x = yield", "nonlocal q", "global q", "return", "import *", "from m import *", "yield from a", "del q", "lambda: (yield)", "q = [(yield) for z in a]"}
+	var rec func(body string, d int)
+	n := 0
+	rec = func(body string, d int) {
+		c11Check(r, body, "placement")
+		n++
+		if d == 0 {
+			return
+		}
+		for _, w := range wrappers {
+			rec(fmt.Sprintf(w, Indent(strings.TrimRight(body, "\n"), 4)), d-1)
+		}
+	}
+	for _, st := range stmts {
+		rec(st+"\n", depth)
+	}
+	r.AddExtra("placement_programs", int64(n))
 }
 
 // c11Sizes: deep nesting and very large functions
